@@ -1,48 +1,189 @@
 package main
 
+// Fact kinds added by the Rpcextra family.
+//
+//   tltag:      {"kind":"tltag","dir":…,"name":"RpcDestActor","lean":"tagRpcDestActor"}
+//               the integer literal returned by `func (RpcDestActor) TLTag() uint32 { return 0x… }`
+//   tl1layout:  {"kind":"tl1layout","dir":…,"name":"RpcInvokeReqExtra","func":"WriteTL1","lean":"reqExtraWriteLayout"}
+//               the ordered list of field steps of a generated `WriteTL1`/`ReadTL1` method:
+//               (mask bit or 1000 when unconditional, callee name, field name); a step is
+//               `w = callee(w, item.Field)`, `w = item.Field.callee(w)`,
+//               `w, err = callee(w, &item.Field)` or `w, err = item.Field.callee(w)`,
+//               possibly inside `if item.<Mask>&(1<<bit) != 0 { … }`.
+
 import (
 	"fmt"
 	"go/ast"
 	"go/constant"
+	"go/token"
 	"strings"
 )
 
-// kind "tltag": the constant returned by the generated method `func (<Name>) TLTag() uint32 { return 0x… }`
-// of receiver type it.Name (generated TL packages keep constructor tags as literals, not as constants).
 func init() {
 	kinds["tltag"] = kind_tltag
+	kinds["tl1layout"] = kind_tl1layout
 }
 
-func kind_tltag(pi *pkgInfo, sp Spec, it Item, b *strings.Builder) error {
+func recvTypeName(fd *ast.FuncDecl) string {
+	if fd.Recv == nil || len(fd.Recv.List) != 1 {
+		return ""
+	}
+	t := fd.Recv.List[0].Type
+	if st, ok := t.(*ast.StarExpr); ok {
+		t = st.X
+	}
+	if id, ok := t.(*ast.Ident); ok {
+		return id.Name
+	}
+	return ""
+}
+
+func findMethod(pi *pkgInfo, typ, name string) *ast.FuncDecl {
 	for _, f := range pi.files {
 		for _, d := range f.Decls {
 			fd, ok := d.(*ast.FuncDecl)
-			if !ok || fd.Name.Name != "TLTag" || fd.Recv == nil || len(fd.Recv.List) != 1 || fd.Body == nil {
-				continue
+			if ok && fd.Name.Name == name && recvTypeName(fd) == typ && fd.Body != nil {
+				return fd
 			}
-			t := fd.Recv.List[0].Type
-			if st, ok := t.(*ast.StarExpr); ok {
-				t = st.X
-			}
-			id, ok := t.(*ast.Ident)
-			if !ok || id.Name != it.Name || len(fd.Body.List) != 1 {
-				continue
-			}
-			rs, ok := fd.Body.List[0].(*ast.ReturnStmt)
-			if !ok || len(rs.Results) != 1 {
-				continue
-			}
-			tv, ok := pi.info.Types[rs.Results[0]]
-			if !ok || tv.Value == nil {
-				return fmt.Errorf("%s: %s.TLTag does not return a constant", sp.Family, it.Name)
-			}
-			v := constant.ToInt(tv.Value)
-			if v.Kind() != constant.Int {
-				return fmt.Errorf("%s: %s.TLTag is not an integer", sp.Family, it.Name)
-			}
-			fmt.Fprintf(b, "def %s : Nat := %s\n", it.Lean, v.ExactString())
-			return nil
 		}
 	}
-	return fmt.Errorf("%s: method %s.TLTag not found in %s", sp.Family, it.Name, it.Dir)
+	return nil
+}
+
+func kind_tltag(pi *pkgInfo, sp Spec, it Item, b *strings.Builder) error {
+	fd := findMethod(pi, it.Name, "TLTag")
+	if fd == nil || len(fd.Body.List) != 1 {
+		return fmt.Errorf("%s: method %s.TLTag with a single return not found in %s", sp.Family, it.Name, it.Dir)
+	}
+	rs, ok := fd.Body.List[0].(*ast.ReturnStmt)
+	if !ok || len(rs.Results) != 1 {
+		return fmt.Errorf("%s: %s.TLTag is not a single return", sp.Family, it.Name)
+	}
+	tv := pi.info.Types[rs.Results[0]]
+	if tv.Value == nil {
+		return fmt.Errorf("%s: %s.TLTag does not return a constant", sp.Family, it.Name)
+	}
+	v := constant.ToInt(tv.Value)
+	fmt.Fprintf(b, "def %s : Nat := %s\n", it.Lean, v.ExactString())
+	return nil
+}
+
+// maskBit recognises `item.X&(1<<N) != 0`
+func maskBit(pi *pkgInfo, e ast.Expr) (int, bool) {
+	be, ok := e.(*ast.BinaryExpr)
+	if !ok || be.Op != token.NEQ {
+		return 0, false
+	}
+	and, ok := be.X.(*ast.BinaryExpr)
+	if !ok || and.Op != token.AND {
+		return 0, false
+	}
+	rhs := and.Y
+	if p, ok := rhs.(*ast.ParenExpr); ok {
+		rhs = p.X
+	}
+	sh, ok := rhs.(*ast.BinaryExpr)
+	if !ok || sh.Op != token.SHL {
+		return 0, false
+	}
+	tv := pi.info.Types[sh.Y]
+	if tv.Value == nil {
+		if lit, ok := sh.Y.(*ast.BasicLit); ok {
+			var n int
+			fmt.Sscanf(lit.Value, "%d", &n)
+			return n, true
+		}
+		return 0, false
+	}
+	n, _ := constant.Int64Val(constant.ToInt(tv.Value))
+	return int(n), true
+}
+
+type layoutStep struct {
+	bit    int
+	callee string
+	field  string
+}
+
+func fieldOf(e ast.Expr) string {
+	if u, ok := e.(*ast.UnaryExpr); ok && u.Op == token.AND {
+		e = u.X
+	}
+	if s, ok := e.(*ast.SelectorExpr); ok {
+		if id, ok := s.X.(*ast.Ident); ok && id.Name == "item" {
+			return s.Sel.Name
+		}
+	}
+	return ""
+}
+
+func callStep(ce *ast.CallExpr) (callee, field string, ok bool) {
+	switch fn := ce.Fun.(type) {
+	case *ast.Ident: // Builtin…(w, item.F)
+		callee = fn.Name
+	case *ast.SelectorExpr:
+		if f := fieldOf(fn.X); f != "" { // item.F.Method(w)
+			return fn.Sel.Name, f, true
+		}
+		callee = fn.Sel.Name // basictl.X(w, item.F)
+	default:
+		return "", "", false
+	}
+	for _, a := range ce.Args {
+		if f := fieldOf(a); f != "" {
+			return callee, f, true
+		}
+	}
+	return "", "", false
+}
+
+func collectSteps(pi *pkgInfo, stmts []ast.Stmt, bit int, out *[]layoutStep) {
+	for _, s := range stmts {
+		switch st := s.(type) {
+		case *ast.AssignStmt:
+			if len(st.Rhs) == 1 {
+				if ce, ok := st.Rhs[0].(*ast.CallExpr); ok {
+					if c, f, ok := callStep(ce); ok {
+						*out = append(*out, layoutStep{bit, c, f})
+					}
+				}
+			}
+		case *ast.ReturnStmt:
+			for _, r := range st.Results {
+				if ce, ok := r.(*ast.CallExpr); ok {
+					if c, f, ok := callStep(ce); ok {
+						*out = append(*out, layoutStep{bit, c, f})
+					}
+				}
+			}
+		case *ast.IfStmt:
+			inner := bit
+			if n, ok := maskBit(pi, st.Cond); ok {
+				inner = n
+			}
+			if st.Init != nil {
+				collectSteps(pi, []ast.Stmt{st.Init}, inner, out)
+			}
+			collectSteps(pi, st.Body.List, inner, out)
+			// the else branch only resets the field: not a wire step
+		}
+	}
+}
+
+func kind_tl1layout(pi *pkgInfo, sp Spec, it Item, b *strings.Builder) error {
+	fd := findMethod(pi, it.Name, it.Func)
+	if fd == nil {
+		return fmt.Errorf("%s: method %s.%s not found in %s", sp.Family, it.Name, it.Func, it.Dir)
+	}
+	var steps []layoutStep
+	collectSteps(pi, fd.Body.List, 1000, &steps)
+	fmt.Fprintf(b, "def %s : List (Nat × String × String) := [", it.Lean)
+	for i, s := range steps {
+		if i > 0 {
+			b.WriteString(", ")
+		}
+		fmt.Fprintf(b, "(%d, %s, %s)", s.bit, leanStr(s.callee), leanStr(s.field))
+	}
+	b.WriteString("]\n")
+	return nil
 }
